@@ -39,6 +39,22 @@ pub struct FnInfo {
     pub hash: String,
     /// index of the lexically enclosing function (nested items), if any
     pub parent: Option<usize>,
+    /// declared `pub` (unrestricted)
+    pub is_pub: bool,
+    /// a default method in a `trait` definition
+    pub in_trait_def: bool,
+    /// the declared return type mentions an `Atomic*` type
+    pub ret_atomic: bool,
+}
+
+impl FnInfo {
+    /// An *entry point*: callable from outside the crate as far as this translator can tell (`pub`
+    /// functions, methods of trait impls, default methods of traits).  Everything else (private,
+    /// `pub(crate)`, `pub(super)`, `pub(in ..)`, items nested in a function) is a *helper*: every caller
+    /// is in the crate, so the call graph sees all of them.
+    pub fn is_entry(&self) -> bool {
+        self.is_pub || self.trait_name.is_some() || self.in_trait_def
+    }
 }
 
 pub struct ConstInfo {
@@ -77,6 +93,9 @@ pub struct Crate {
     pub uses: Vec<UseInfo>,
     /// top-level macro items (`macro_rules!` definitions, item-position invocations): (file, name, tokens)
     pub macro_items: Vec<(String, String, TokenStream)>,
+    /// names of functions that hand out (a reference to) the count: the declared return type mentions
+    /// an `Atomic*` type, or the body is a single expression that mentions a `.count` field
+    pub count_accessors: BTreeSet<String>,
 }
 
 impl Crate {
@@ -252,6 +271,8 @@ struct Ctx {
     trait_name: Option<String>,
     cfgs: Vec<CfgKind>,
     parent: Option<usize>,
+    is_pub: bool,
+    in_trait_def: bool,
 }
 
 struct NestedItems<'a> {
@@ -325,7 +346,14 @@ impl Collector {
                 if is_test_item(&f.attrs) {
                     return;
                 }
-                let mut c = Ctx { self_ty: None, trait_name: None, cfgs: ctx.cfgs.clone(), parent: ctx.parent };
+                let mut c = Ctx {
+                    self_ty: None,
+                    trait_name: None,
+                    cfgs: ctx.cfgs.clone(),
+                    parent: ctx.parent,
+                    is_pub: matches!(f.vis, syn::Visibility::Public(_)) && ctx.parent.is_none(),
+                    in_trait_def: false,
+                };
                 c.cfgs.extend(cfgs_of(&f.attrs));
                 self.add_fn(fname, &f.sig, &f.block, &c);
             }
@@ -348,6 +376,8 @@ impl Collector {
                                 trait_name: trait_name.clone(),
                                 cfgs: cfgs.clone(),
                                 parent: ctx.parent,
+                                is_pub: matches!(f.vis, syn::Visibility::Public(_)) && ctx.parent.is_none(),
+                                in_trait_def: false,
                             };
                             c.cfgs.extend(cfgs_of(&f.attrs));
                             self.add_fn(fname, &f.sig, &f.block, &c);
@@ -373,6 +403,8 @@ impl Collector {
                                 trait_name: None,
                                 cfgs: cfgs.clone(),
                                 parent: ctx.parent,
+                                is_pub: false,
+                                in_trait_def: true,
                             };
                             self.add_fn(fname, &f.sig, b, &c);
                         }
@@ -507,6 +539,13 @@ impl Collector {
             syn::ReturnType::Type(_, t) => ty_of(t, self_ty, types),
         };
         let norm = format!("{} {}", sig.to_token_stream(), block.to_token_stream());
+        let ret_atomic = match &sig.output {
+            syn::ReturnType::Default => false,
+            syn::ReturnType::Type(_, t) => tokens_have_atomic(t.to_token_stream()),
+        };
+        if ret_atomic || body_is_count_projection(block) {
+            self.krate.count_accessors.insert(name.clone());
+        }
         let idx = self.krate.fns.len();
         self.krate.fns.push(FnInfo {
             qname: qname.clone(),
@@ -523,6 +562,9 @@ impl Collector {
             cfgs: ctx.cfgs.clone(),
             hash: fnv1a(&norm),
             parent: ctx.parent,
+            is_pub: ctx.is_pub,
+            in_trait_def: ctx.in_trait_def,
+            ret_atomic,
         });
         self.krate.by_qname.entry(qname).or_default().push(idx);
         if ctx.self_ty.is_none() {
@@ -535,7 +577,7 @@ impl Collector {
         // items nested in the body (structs, impls, fns) are collected on their own
         let mut n = NestedItems { items: Vec::new() };
         n.visit_block(block);
-        let nested_ctx = Ctx { self_ty: None, trait_name: None, cfgs: ctx.cfgs.clone(), parent: Some(idx) };
+        let nested_ctx = Ctx { self_ty: None, trait_name: None, cfgs: ctx.cfgs.clone(), parent: Some(idx), is_pub: false, in_trait_def: false };
         for it in n.items {
             // nested struct names are types as well
             match it {
@@ -554,6 +596,48 @@ impl Collector {
             self.item(fname, it, &nested_ctx);
         }
     }
+}
+
+fn tokens_have_atomic(ts: TokenStream) -> bool {
+    for t in ts {
+        match t {
+            TokenTree::Ident(i) => {
+                if i.to_string().starts_with("Atomic") {
+                    return true;
+                }
+            }
+            TokenTree::Group(g) => {
+                if tokens_have_atomic(g.stream()) {
+                    return true;
+                }
+            }
+            _ => {}
+        }
+    }
+    false
+}
+
+/// the body is one expression (possibly inside `unsafe { }`) that is a projection ending in the field
+/// `.count`: `&self.inner().count`, `&mut (*p).count`, `addr_of!((*p).count)` is *not* one (a macro)
+fn body_is_count_projection(b: &syn::Block) -> bool {
+    fn tail(b: &syn::Block) -> Option<&syn::Expr> {
+        match b.stmts.as_slice() {
+            [syn::Stmt::Expr(e, None)] => Some(e),
+            _ => None,
+        }
+    }
+    fn is_count_field(e: &syn::Expr) -> bool {
+        match e {
+            syn::Expr::Reference(r) => is_count_field(&r.expr),
+            syn::Expr::Paren(p) => is_count_field(&p.expr),
+            syn::Expr::Group(g) => is_count_field(&g.expr),
+            syn::Expr::Unsafe(u) => tail(&u.block).map(is_count_field).unwrap_or(false),
+            syn::Expr::Block(bl) => tail(&bl.block).map(is_count_field).unwrap_or(false),
+            syn::Expr::Field(f) => matches!(&f.member, syn::Member::Named(i) if i == "count"),
+            _ => false,
+        }
+    }
+    tail(b).map(is_count_field).unwrap_or(false)
 }
 
 fn flatten_use(t: &syn::UseTree, prefix: &mut Vec<String>, out: &mut Vec<(Vec<String>, String)>) {
